@@ -26,6 +26,7 @@ RULE = {
 STATE_MEASURE = ("abstract KAURI growth states reached: (n_clusters, max_clusters, sorted leaves-per-cluster counts, set of admissible "
                  "assignment kinds) at SPLIT_SEARCH events")
 COMPONENTS_REAL = ["gemclus.tree.kauri.Kauri.fit / Tree / predict / score", "compiled gemclus.tree._utils.find_best_split and gemini_objective (prebuilt extension)",
+                   "the SOURCE gemclus/tree/_utils.pyx of the working tree, de-cythonised (gemsim/pyx2py.py) and executed on the same states (no Cython offline)",
                    "scikit-learn pairwise kernels and validation"]
 COMPONENTS_STUB = ["RandomState.choice (feature subsets: faithful / first / last / adversary)",
                    "find_best_split interposer: always calls the real finder; steering returns another admissible split with probability p"]
@@ -162,6 +163,11 @@ class KauriOracle:
         self.kinds_chosen = []
         self.saw_double_star = False
         self.n = len(X)
+        from .. import pyx2py
+        ns, info = pyx2py.load()
+        self.pyx = ns
+        if ns is None:
+            res.probe("pyx_source_not_loadable")
 
     def violate(self, cls, detail):
         self.res.violate(cls, detail, seq=self.world.log.seq)
@@ -211,31 +217,22 @@ class KauriOracle:
         for kd in kinds_here:
             res.probe("admissible_" + kd)
         best = max(alts, key=lambda a: a["gain"]) if alts else None
-        chosen_kind = None
-        if sp.gain > 0:
-            k = int(Y[:, sp.leaf].argmax())
-            chosen_kind = split_kind(k, int(n_clusters), int(sp.left_target), int(sp.right_target))
-            res.probe("chosen_" + chosen_kind)
-            match = [a for a in alts if a["leaf"] == sp.leaf and a["feature"] == sp.feature and a["threshold"] == sp.threshold
-                     and a["left_target"] == sp.left_target and a["right_target"] == sp.right_target]
-            if not match:
-                self.check_inadmissible(sp, X, Z, leaves, feats, min_leaf, n_clusters, K_max)
-                idx = np.nonzero(Z[sp.leaf])[0]
-                lab = labels.copy()
-                lab[idx[X[idx, sp.feature] <= sp.threshold]] = sp.left_target
-                lab[idx[X[idx, sp.feature] > sp.threshold]] = sp.right_target
-                actual = kkmeans_objective(lab, kernel) - base
-            else:
-                actual = match[0]["gain"]
-            if abs(actual - sp.gain) > tol:
-                self.violate("C08:gain_mismatch:" + chosen_kind, {"claimed": float(sp.gain), "actual": float(actual), "event": self.events,
-                                                                 "n_clusters": int(n_clusters), "K_max": int(K_max)})
-            if best is not None and best["gain"] > max(sp.gain, actual) + tol:
-                self.violate(f"C08:not_best:chosen={chosen_kind}:missed={best['kind']}",
-                             {"chosen_gain": float(sp.gain), "actual_gain_of_chosen": float(actual), "best": best, "event": self.events})
-        else:
-            if best is not None and best["gain"] > tol:
-                self.violate(f"C08:false_stop:missed={best['kind']}", {"returned_gain": float(sp.gain), "best": best, "event": self.events})
+        chosen_kind = self.judge_split(sp, "ext", alts, best, labels, base, tol, kernel, X, Y, Z, leaves, feats, min_leaf, n_clusters, K_max)
+        # the same oracles on the answer of the de-cythonised SOURCE (gemclus/tree/_utils.pyx of the working tree)
+        if self.pyx is not None:
+            try:
+                sp2 = self.pyx["find_best_split"](kernel, X, leaves, Y, Z, n_clusters, K_max, n_leaves, min_leaf, feats)
+            except Exception as e:
+                sp2 = None
+                res.probe("pyx_source_raised:" + type(e).__name__)
+                self.violate("C08:raised:" + type(e).__name__ + "@_utils.pyx:find_best_split", {"msg": str(e)[:200], "event": self.events})
+            if sp2 is not None:
+                res.probe("pyx_source_events")
+                a = (sp.gain, sp.leaf, sp.left_target, sp.right_target, sp.feature, sp.threshold)
+                b = (sp2.gain, sp2.leaf, sp2.left_target, sp2.right_target, sp2.feature, sp2.threshold)
+                if not (abs(a[0] - b[0]) <= tol and (a[1:] == b[1:] or (a[0] <= 0 and b[0] <= 0))):
+                    res.probe("pyx_source_differs_from_extension")
+                    self.judge_split(sp2, "pyx", alts, best, labels, base, tol, kernel, X, Y, Z, leaves, feats, min_leaf, n_clusters, K_max)
         # ---------------- steering
         out = sp
         if alts and self.steer_p > 0 and self.steer_rng.random() < self.steer_p:
@@ -283,6 +280,43 @@ class KauriOracle:
         else:
             self.expected_labels = labels.copy()
         return out
+
+    def judge_split(self, sp, engine, alts, best, labels, base, tol, kernel, X, Y, Z, leaves, feats, min_leaf, n_clusters, K_max):
+        """C08 oracles (i)-(iii) on one answer of a split finder.  `engine` is "ext" (compiled extension, what Kauri.fit
+        uses) or "pyx" (the de-cythonised source of the working tree)."""
+        res = self.res
+        chosen_kind = None
+        if sp.gain > 0:
+            if not (0 <= int(sp.leaf) < Y.shape[1]) or not (0 <= int(sp.feature) < X.shape[1]):
+                self.check_inadmissible(sp, X, Z, leaves, feats, min_leaf, n_clusters, K_max)
+                return None
+            k = int(Y[:, sp.leaf].argmax())
+            chosen_kind = split_kind(k, int(n_clusters), int(sp.left_target), int(sp.right_target))
+            if engine == "ext":
+                res.probe("chosen_" + chosen_kind)
+            match = [a for a in alts if a["leaf"] == sp.leaf and a["feature"] == sp.feature and a["threshold"] == sp.threshold
+                     and a["left_target"] == sp.left_target and a["right_target"] == sp.right_target]
+            if not match:
+                self.check_inadmissible(sp, X, Z, leaves, feats, min_leaf, n_clusters, K_max)
+                idx = np.nonzero(Z[sp.leaf])[0]
+                lab = labels.copy()
+                lab[idx[X[idx, sp.feature] <= sp.threshold]] = sp.left_target
+                lab[idx[X[idx, sp.feature] > sp.threshold]] = sp.right_target
+                actual = kkmeans_objective(lab, kernel) - base
+            else:
+                actual = match[0]["gain"]
+            if abs(actual - sp.gain) > tol:
+                self.violate("C08:gain_mismatch:" + chosen_kind, {"claimed": float(sp.gain), "actual": float(actual), "event": self.events,
+                                                                 "n_clusters": int(n_clusters), "K_max": int(K_max), "engine": engine})
+            if best is not None and best["gain"] > max(sp.gain, actual) + tol:
+                self.violate(f"C08:not_best:chosen={chosen_kind}:missed={best['kind']}",
+                             {"chosen_gain": float(sp.gain), "actual_gain_of_chosen": float(actual), "best": best, "event": self.events,
+                              "engine": engine})
+        else:
+            if best is not None and best["gain"] > tol:
+                self.violate(f"C08:false_stop:missed={best['kind']}", {"returned_gain": float(sp.gain), "best": best, "event": self.events,
+                                                                       "engine": engine})
+        return chosen_kind
 
     def check_inadmissible(self, sp, X, Z, leaves, feats, min_leaf, n_clusters, K_max):
         why = []
@@ -358,7 +392,14 @@ def final_checks(res, oracle, model, cfg, X, A, kernel_matrix, query_rs):
     ref = kkmeans_objective(pred, kernel_matrix)
     tol = 1e-9 * max(1.0, abs(ref), float(np.abs(kernel_matrix).sum()))
     if abs(sc - ref) > tol:
-        V("C09:score", {"score": float(sc), "objective_of_predicted_labels": ref})
+        V("C09:score", {"score": float(sc), "objective_of_predicted_labels": ref, "engine": "ext"})
+    if oracle.pyx is not None:
+        try:
+            sc2 = float(oracle.pyx["gemini_objective"](np.asarray(pred, dtype=np.int64), kernel_matrix))
+            if abs(sc2 - ref) > tol:
+                V("C09:score", {"score": sc2, "objective_of_predicted_labels": ref, "engine": "pyx"})
+        except Exception as e:
+            V("C09:raised:" + type(e).__name__ + "@_utils.pyx:gemini_objective", {"msg": str(e)[:200]})
     # ---------------- C08 end of run
     gains = t.gains
     for node, g, kd in oracle.applied:
